@@ -80,7 +80,7 @@ def obj_ln(o, x):
 CACHE_FIELDS = ("Sigma", "ln_det_Sigma", "ln_det_Lambda", "lnZ", "mu")
 
 
-def invariant_diffs(o, fields=None, what=""):
+def invariant_diffs(o, fields=None, what="", lndet_oracle=None):
     """representation invariant of a factor/measure/density object: every non-None derived field agrees with the
     value defined by the natural parameters (Lambda, nu).  Returns a list of (field, diffs)."""
     out = []
@@ -90,35 +90,88 @@ def invariant_diffs(o, fields=None, what=""):
         return out
     want = fields or CACHE_FIELDS
     Sig_ref, ldL = nf.inverse(Lam)
-    if "Sigma" in want and f.get("Sigma") is not None:
-        # Sigma * Lambda -> delta  (rule 3) ; equivalently Sigma == Inv(Lambda) by value number
-        prod = nf.einsum("rab,rbc->rac", f["Sigma"], Lam, what="Sigma*Lambda")
-        Dd = Lam.shape[-1]
-        eye = nf.expand_dims(nf.eye(Dd), [None])
-        d = nf.diff(prod, nf.add(nf.scale(prod, 0), eye), what=f"{what}Sigma*Lambda")
+    if f.get("Sigma") is not None:
+        d = inverse_pair_diffs(f["Sigma"], Lam, what)
         if d:
-            d2 = nf.diff(f["Sigma"], Sig_ref, what=f"{what}Sigma")
-            if d2:
+            if "Sigma" in want:
                 out.append(("Sigma*Lambda=I", d[:4]))
+        else:
+            Sig_ref = f["Sigma"]          # established: the stored covariance IS the inverse of the precision
+    ldL_alts = [ldL]
+    if f.get("Sigma") is not None:
+        ldL_alts.append(nf.neg(nf.logdet(f["Sigma"])))
+    lem = lndet_rank_one(Lam)
+    if lem is not None:
+        ldL_alts.append(lem)
+    if lndet_oracle is not None:
+        ldL_alts.append(nf.neg(lndet_oracle))
     if "ln_det_Sigma" in want and f.get("ln_det_Sigma") is not None:
-        d = nf.diff(f["ln_det_Sigma"], nf.neg(ldL), what=f"{what}ln_det_Sigma")
-        if d:
-            out.append(("ln_det_Sigma=-LnDet(Lambda)", d[:4]))
+        ds = [nf.diff(f["ln_det_Sigma"], nf.neg(a), what=f"{what}ln_det_Sigma") for a in ldL_alts]
+        if all(ds):
+            out.append(("ln_det_Sigma=-LnDet(Lambda)", ds[0][:4]))
     if "ln_det_Lambda" in want and f.get("ln_det_Lambda") is not None:
-        d = nf.diff(f["ln_det_Lambda"], ldL, what=f"{what}ln_det_Lambda")
-        if d:
-            out.append(("ln_det_Lambda=LnDet(Lambda)", d[:4]))
+        ds = [nf.diff(f["ln_det_Lambda"], a, what=f"{what}ln_det_Lambda") for a in ldL_alts]
+        if all(ds):
+            out.append(("ln_det_Lambda=LnDet(Lambda)", ds[0][:4]))
     if "mu" in want and f.get("mu") is not None and nu is not None:
         d = nf.diff(f["mu"], nf.einsum("rab,rb->ra", Sig_ref, nu), what=f"{what}mu")
         if d:
             out.append(("mu=Sigma nu", d[:4]))
     if "lnZ" in want and f.get("lnZ") is not None and nu is not None:
         Dd = Lam.shape[-1]
-        ref = nf.scale(nf.add(nf.add(nf.einsum("rd,rde,re->r", nu, Sig_ref, nu), nf.const(Dd * LOG2PI)), ldL, -1), D(1) / 2)
-        d = nf.diff(f["lnZ"], ref, what=f"{what}lnZ")
-        if d:
-            out.append(("lnZ=Gaussian log-normaliser", d[:4]))
+        ds = []
+        for a in ldL_alts:
+            ref = nf.scale(nf.add(nf.add(nf.einsum("rd,rde,re->r", nu, Sig_ref, nu), nf.const(Dd * LOG2PI)), a, -1), D(1) / 2)
+            ds.append(nf.diff(f["lnZ"], ref, what=f"{what}lnZ"))
+        if all(ds):
+            out.append(("lnZ=Gaussian log-normaliser", ds[0][:4]))
     return out
+
+
+def lndet_rank_one(Lam):
+    """matrix determinant lemma (axiom, rule 8):  LnDet(X + g v v') = LnDet(X) + log(1 + g v' Inv(X) v)
+    for Lam whose normal form is  X[.,a,b] + (scalar factors) * v[.,a] v[.,b]  with X a single invariant atom."""
+    nt = nf.normalize(Lam)
+    if len(nt) != 2 or len(Lam.axes) < 2 or len(Lam.axes[-1]) != 1 or len(Lam.axes[-2]) != 1:
+        return None
+    a, b = Lam.axes[-2][0], Lam.axes[-1][0]
+    base = [t for t in nt if len(t[1].f) == 1 and t[0].is_one() and nf.ST.head[t[1].f[0][0]].sym]
+    rank = [t for t in nt if t not in base]
+    if len(base) != 1 or len(rank) != 1:
+        return None
+    c, n = rank[0]
+    va = [(h, ix) for h, ix in n.f if a in ix]
+    vb = [(h, ix) for h, ix in n.f if b in ix]
+    if len(va) != 1 or len(vb) != 1 or va[0][0] != vb[0][0] or va[0][1][:-1] != vb[0][1][:-1]:
+        return None
+    X = Val(Lam.axes, [base[0]])
+    Xinv, ldX = nf.inverse(X)
+    gv = Val(Lam.axes[:-1], [(c, nf.Net([g for g in n.f if g != vb[0]]))])          # g * v[.,a]
+    v2 = Val(Lam.axes[:-2] + [Lam.axes[-1]], [(D(1), nf.Net([vb[0]]))])              # v[.,b]
+    k = len(Lam.axes) - 2
+    bl = "pqrstu"[:k]
+    quad = nf.einsum(f"{bl}x,{bl}xy,{bl}y->{bl}", gv, Xinv, v2)
+    return nf.add(ldX, nf.elementwise("Log", nf.add(nf.const(1), quad)))
+
+
+def inverse_pair_diffs(S, L, what=""):
+    """Sigma * Lambda == I, decided by (i) multiplication in normal form (rules 3, 5, block identity), (ii) value numbers
+    Sigma == Inv(Lambda) or Lambda == Inv(Sigma), (iii) the rational extension (rule 8) for Sherman-Morrison updates."""
+    prod = nf.einsum("rab,rbc->rac", S, L, what="Sigma*Lambda")
+    eye = nf.partition_identity(prod)
+    if eye is None:
+        eye = nf.eye(L.shape[-1])
+    target = nf.add(nf.scale(prod, 0), nf.expand_dims(eye, [None]))
+    d = nf.diff(prod, target, what=f"{what}Sigma*Lambda")
+    if not d:
+        return []
+    if not nf.diff(S, nf.inverse(L)[0], what=f"{what}Sigma"):
+        return []
+    if not nf.diff(L, nf.inverse(S)[0], what=f"{what}Lambda"):
+        return []
+    if nf.zero_mod_recip(nf.add(prod, target, -1)):
+        return []
+    return d
 
 
 def operand_write_violations(I, epoch, operands):
